@@ -114,8 +114,10 @@ func (e *Encoder) Write(_ context.Context, f frame.Frame) error {
 // DecodingReader provides a Reader on top of a gob stream
 // encoded with batches of rows stored in column-major order.
 type decodingReader struct {
-	dec     *gobDecoder
-	crc     hash.Hash32
+	dec *gobDecoder
+	crc hash.Hash32
+	// nread counts the bytes consumed from the underlying stream.
+	nread   byteCounter
 	scratch frame.Frame
 	buf     frame.Frame
 	err     error
@@ -137,8 +139,23 @@ func NewDecodingReader(r io.Reader) Reader {
 	if _, ok := r.(io.ByteReader); !ok {
 		r = bufio.NewReader(r)
 	}
-	r = io.TeeReader(r, crc)
-	return &decodingReader{dec: newGobDecoder(readerByteReader{Reader: r}), crc: crc}
+	d := &decodingReader{crc: crc}
+	r = io.TeeReader(r, io.MultiWriter(crc, &d.nread))
+	d.dec = newGobDecoder(readerByteReader{Reader: r})
+	return d
+}
+
+// maxChecksumMessageSize bounds the encoded size of the gob message that
+// carries a batch's uint32 checksum (length, type id and at most 5 value
+// bytes).
+const maxChecksumMessageSize = 16
+
+// byteCounter counts the bytes written to it.
+type byteCounter int64
+
+func (c *byteCounter) Write(p []byte) (int, error) {
+	*c += byteCounter(len(p))
+	return len(p), nil
 }
 
 func (d *decodingReader) Read(ctx context.Context, f frame.Frame) (n int, err error) {
@@ -147,10 +164,20 @@ func (d *decodingReader) Read(ctx context.Context, f frame.Frame) (n int, err er
 	}
 	for d.buf.Len() == 0 {
 		d.crc.Reset()
+		start := d.nread
 		if d.err = d.dec.Decode(&n); d.err != nil {
 			if d.err == io.EOF {
-				d.err = EOF
+				if d.nread != start {
+					// The stream ended inside a batch header.
+					d.err = errors.E(errors.Integrity, io.ErrUnexpectedEOF)
+				} else {
+					d.err = EOF
+				}
 			}
+			return 0, d.err
+		}
+		if n < 0 {
+			d.err = errors.E(errors.Integrity, fmt.Errorf("invalid batch size %d", n))
 			return 0, d.err
 		}
 		// In most cases, we should be able to decode directly into the
@@ -181,6 +208,15 @@ func (d *decodingReader) Read(ctx context.Context, f frame.Frame) (n int, err er
 // The frame is preallocated and is guaranteed to have enough
 // space to decode all of the values.
 func (d *decodingReader) decode(f frame.Frame) error {
+	err := d.decodeBatch(f)
+	if err == io.EOF || err == EOF {
+		// The stream ended in the middle of a batch.
+		err = errors.E(errors.Integrity, io.ErrUnexpectedEOF)
+	}
+	return err
+}
+
+func (d *decodingReader) decodeBatch(f frame.Frame) error {
 	// Always zero memory before decoding with Gob, as it will reuse
 	// existing memory. This can be dangerous; especially when
 	// that involves user code.
@@ -219,14 +255,23 @@ func (d *decodingReader) decode(f frame.Frame) error {
 		}
 		// This is guaranteed by gob, but it seems worthy of some defensive programming here.
 		// It's also an extra check against the correctness of the codec.
-		if pHdr.Data != sh.Data {
-			panic("gob reallocated a slice")
+		if pHdr.Data != sh.Data || pHdr.Len != sh.Len {
+			// The column does not have the batch's number of rows: the
+			// stream is corrupt (or the codec is incorrect).
+			return errors.E(errors.Integrity, errors.New("column length does not match batch size"))
 		}
 	}
 	sum := d.crc.Sum32()
 	var decoded uint32
+	start := d.nread
 	if err := d.dec.Decode(&decoded); err != nil {
 		return err
+	}
+	// The checksum message is itself not covered by the checksum. If its
+	// length prefix is damaged, gob can skip over (part of) the batches that
+	// follow as if they were the tail of this message.
+	if d.nread-start > maxChecksumMessageSize {
+		return errors.E(errors.Integrity, errors.New("malformed checksum message"))
 	}
 	if sum != decoded {
 		return errors.E(errors.Integrity, fmt.Errorf("computed checksum %x but expected checksum %x", sum, decoded))
